@@ -97,9 +97,23 @@ ViewC(e) == LET bm == regs[e.reg]
                      /\ e.flatarr = e.flat
                      /\ e.flatcell = fl)>> >>
 
+(* ---- cone coverage (C05, C06): metric facts are measured by the bridge, the structure is judged here ---- *)
+TolFull == 1000          \* 1e-12 rad, in units of 1e-15 rad (plus the radius-proportional part e.rtol = 1e-9 * r)
+AllSkyCells == [k \in 1..12 |-> [b |-> k - 1, p |-> <<>>, f |-> 1]]
+ConeC(e) == IF e.p = 1 THEN << <<"panic", FALSE>> >> ELSE
+  << <<"dmax", e.dmax = e.d>>, <<"wellformed", WellFormed(Value(e))>>,
+     (* C05: every cell of the requested depth that provably contains a point of the cone is covered, possibly by an ancestor *)
+     <<"no_miss", \A k \in 1..Len(e.wit) : Covered(e.cells, e.wit[k].b, e.wit[k].p)>>,
+     (* C06 *)
+     <<"packed", Packed(e.cells)>>,
+     <<"allsky", e.allsky = 0 \/ e.cells = AllSkyCells>>,
+     <<"full_truthful", e.full_excess <= TolFull + e.rtol>>,
+     <<"tight", e.slack <= 0>> >>
+
 Clauses(e) == CASE e.ev = "new" -> NewC(e)
                 [] e.ev = "op" -> OpC(e)
                 [] e.ev = "law" -> LawC(e)
+                [] e.ev = "cone" -> ConeC(e)
                 [] e.ev = "reset" -> <<>>
                 [] e.ev = "pack" -> PackC(e)
                 [] e.ev = "lower" -> LowerC(e)
@@ -119,7 +133,7 @@ Step == /\ l <= Len(Rec)
         /\ LET e == Rec[l]
                why == Failed(Clauses(e))
            IN /\ bad' = IF why = {} THEN bad ELSE Append(bad, [i |-> l, why |-> why])
-              /\ regs' = IF e.ev \in {"view", "law"} THEN regs
+              /\ regs' = IF e.ev \in {"view", "law", "cone"} THEN regs
                          ELSE IF e.ev = "reset" THEN [r \in 0..(NReg - 1) |-> EmptyBmoc]
                          ELSE [regs EXCEPT ![e.out] = NextValue(e)]
         /\ l' = l + 1
